@@ -877,6 +877,98 @@ func (rr *rckRun) checkPlan(sc *rckSchema, ids []string, replicaN, partitionN in
 	})
 }
 
+// checkFollowerCompletion plays the end of a resize on a node that is not the
+// coordinator: the node holds every shard (what it had plus what it fetched), is in
+// RESIZING with the old membership, and receives the coordinator's final status (the
+// resulting membership, state NORMAL).  The cleanup that transition triggers may remove
+// only shards the node does not own in the resulting cluster (C21, last sentence).
+func (rr *rckRun) checkFollowerCompletion(sh *rckSiteHolder, ids []string, replicaN, partitionN int, action, nodeID string) {
+	var toIDs []string
+	if action == resizeJobActionAdd {
+		toIDs = append(append([]string{}, ids...), nodeID)
+	} else {
+		for _, id := range ids {
+			if id != nodeID {
+				toIDs = append(toIDs, id)
+			}
+		}
+	}
+	sort.Strings(toIDs)
+	to, err := rr.buildCluster(toIDs, 0)
+	if err != nil {
+		rr.t.Fatal(err)
+	}
+	to.ReplicaN, to.partitionN = replicaN, partitionN
+	for _, self := range toIDs {
+		if !rckContains(ids, self) {
+			continue // the joining node starts from the status message, not from RESIZING
+		}
+		coord := ""
+		for _, id := range toIDs {
+			if id != self {
+				coord = id
+				break
+			}
+		}
+		if coord == "" {
+			continue // a follower needs a coordinator other than itself
+		}
+		seq := []string{
+			fmt.Sprintf("cluster %q ReplicaN=%d partitionN=%d, %s node %q", ids, replicaN, partitionN, action, nodeID),
+			fmt.Sprintf("node %q (coordinator %q) holds shards 0..%d of i and j and is RESIZING", self, coord, sh.shards),
+			fmt.Sprintf("mergeClusterStatus(state NORMAL, nodes %q)", toIDs),
+		}
+		rr.try("follower-completion", []string{"C21"}, seq, func() {
+			sh.fill(rr.t)
+			c := newCluster()
+			c.broadcaster = NopBroadcaster
+			c.Topology = newTopology()
+			c.Path = rr.newDir("topo")
+			c.ReplicaN, c.partitionN = replicaN, partitionN
+			c.holder = sh.h
+			c.Coordinator = coord
+			for _, id := range ids {
+				if err := c.addNode(rckNode(id)); err != nil {
+					rr.t.Fatal(err)
+				}
+			}
+			c.Node = c.unprotectedNodeByID(self)
+			c.state = ClusterStateResizing
+			var official []*Node
+			for _, id := range toIDs {
+				n := rckNode(id)
+				n.IsCoordinator = id == coord
+				official = append(official, n)
+			}
+			if err := c.mergeClusterStatus(&ClusterStatus{ClusterID: "cid", State: ClusterStateNormal, Nodes: official}); err != nil {
+				rr.fail([]string{"C21"}, "follower-completion-error", err.Error(), seq)
+				return
+			}
+			if got := c.nodeIDs(); !rckSetEq(got, toIDs) || c.state != ClusterStateNormal {
+				rr.fail([]string{"C21"}, "follower-completion-membership", fmt.Sprintf("after the final status the node holds %q in state %s, want %q in NORMAL", got, c.state, toIDs), seq)
+				return
+			}
+			for _, index := range []string{"i", "j"} {
+				rr.eval("C21", 1)
+				kept := sh.present(index)
+				lost := 0
+				for s := uint64(0); s <= sh.shards; s++ {
+					owns := rckContains(rckIDs(to.shardNodes(index, s)), self)
+					if owns && !uint64InSlice(s, kept) {
+						rr.fail([]string{"C21"}, "follower-cleanup-removes-owned-shard", fmt.Sprintf("cleanup on %q after %s of %q removed shard %d of index %s, which the node owns in the resulting cluster (owners %q); kept %v", self, action, nodeID, s, index, rckIDs(to.shardNodes(index, s)), kept), seq)
+					}
+					if !owns {
+						lost++
+					}
+				}
+				if lost > 0 {
+					rr.nontrivial(fmt.Sprintf("C21|follower|%q|%d|%d|%s|%s|%s|%s", ids, replicaN, partitionN, action, nodeID, self, index))
+				}
+			}
+		})
+	}
+}
+
 func (rr *rckRun) runC21() {
 	schemas := []*rckSchema{rr.newSchema(0), rr.newSchema(1)}
 	defer func() {
@@ -888,6 +980,8 @@ func (rr *rckRun) runC21() {
 	if rr.thorough {
 		setsPerSize = 80
 	}
+	sh := rr.newSiteHolder()
+	defer sh.h.Close()
 	for n := 1; n <= 6; n++ {
 		for k := 0; k < setsPerSize; k++ {
 			var ids []string
@@ -921,11 +1015,17 @@ func (rr *rckRun) runC21() {
 					if n < 6 {
 						for _, id := range newIDs {
 							rr.checkPlan(sc, ids, r, p, resizeJobActionAdd, id)
+							if r >= 1 && r <= 3 && (k == 0 || (rr.thorough && k%8 == 1)) {
+								rr.checkFollowerCompletion(sh, ids, r, p, resizeJobActionAdd, id)
+							}
 						}
 					}
 					if n > 1 {
 						for _, id := range ids {
 							rr.checkPlan(sc, ids, r, p, resizeJobActionRemove, id)
+							if r >= 1 && r <= 3 && (k == 0 || (rr.thorough && k%8 == 1)) {
+								rr.checkFollowerCompletion(sh, ids, r, p, resizeJobActionRemove, id)
+							}
 						}
 					}
 				}
@@ -1699,6 +1799,30 @@ func rckEntries() []rckEntry {
 		{"ImportValue", rckClassData, func(a *API) error {
 			return a.ImportValue(ctx, &ImportValueRequest{Index: "i", Field: "v", Shard: 0, ColumnIDs: []uint64{1}, Values: []int64{1}})
 		}},
+		// the same two entry points with each import option (a forwarded, already
+		// key-translated import and a clearing import are still imports)
+		{"Import(ignoreKeyCheck)", rckClassData, func(a *API) error {
+			return a.Import(ctx, &ImportRequest{Index: "i", Field: "s", Shard: 0, RowIDs: []uint64{2}, ColumnIDs: []uint64{2}}, OptImportOptionsIgnoreKeyCheck(true))
+		}},
+		{"Import(clear)", rckClassData, func(a *API) error {
+			return a.Import(ctx, &ImportRequest{Index: "i", Field: "s", Shard: 0, RowIDs: []uint64{1}, ColumnIDs: []uint64{1}}, OptImportOptionsClear(true))
+		}},
+		{"Import(clear,ignoreKeyCheck)", rckClassData, func(a *API) error {
+			return a.Import(ctx, &ImportRequest{Index: "i", Field: "s", Shard: 0, RowIDs: []uint64{1}, ColumnIDs: []uint64{1}}, OptImportOptionsClear(true), OptImportOptionsIgnoreKeyCheck(true))
+		}},
+		{"ImportValue(ignoreKeyCheck)", rckClassData, func(a *API) error {
+			return a.ImportValue(ctx, &ImportValueRequest{Index: "i", Field: "v", Shard: 0, ColumnIDs: []uint64{2}, Values: []int64{2}}, OptImportOptionsIgnoreKeyCheck(true))
+		}},
+		{"ImportValue(clear)", rckClassData, func(a *API) error {
+			return a.ImportValue(ctx, &ImportValueRequest{Index: "i", Field: "v", Shard: 0, ColumnIDs: []uint64{1}, Values: []int64{1}}, OptImportOptionsClear(true))
+		}},
+		{"ImportRoaring(clear)", rckClassData, func(a *API) error {
+			return a.ImportRoaring(ctx, "i", "s", 0, true, &ImportRoaringRequest{Clear: true, Views: map[string][]byte{"": bm()}})
+		}},
+		{"Query(remote)", rckClassData, func(a *API) error {
+			_, err := a.Query(ctx, &QueryRequest{Index: "i", Query: "Row(s=1)", Remote: true, Shards: []uint64{0}})
+			return err
+		}},
 		{"ImportRoaring", rckClassData, func(a *API) error {
 			return a.ImportRoaring(ctx, "i", "s", 0, true, &ImportRoaringRequest{Views: map[string][]byte{"": bm()}})
 		}},
@@ -1928,7 +2052,7 @@ func TestRcheckCluster(t *testing.T) {
 		"C20: node-ID sets of 1..6 IDs from a pool of %d odd strings (%d sets per size), join orders: all, capped at %d per set (thorough: all 720 for the first two 6-node sets, 240 for the others), through addNodeBasicSorted (every order) and addNode / mergeClusterStatus on a non-coordinator / add+remove of an extra node / nodeJoin on the coordinator (a subset of the orders); replicaN 0..7 x partitionN {1,2,7,16,256} (all 40 for the first two orders of a set, sampled beyond), indexes i,j, shards 0..40 plus every partition 0..partitionN-1 directly; cleaner (RESIZING->NORMAL transition) and SyncHolder call sites on a holder with shards 0..12 for replicaN {1,2,3,7}. "+
 		"C21: clusters of 1..6 nodes (%d ID sets per size), replicaN 0..5, partitionN {256,8}, 2 schemas (indexes i,j[,empty]; time/int/set fields; views standard, standard_2018, bsig_g; a field without views; available shards random in 0..24), every single add (3 new IDs: before/inside/after the ring) up to a resulting 6 nodes and every single remove, through fragSources and unprotectedGenerateResizeJobByAction. "+
 		"C11: mergeBlock exhaustive over 2 bit positions x 1..5 replicas (thorough 6) and 3 positions x 2..3 replicas (4 for the standard fragment and in thorough) in standard/time/bsi fragments on shards 0/2/1, plus %d random cases (<=7 positions, 1..5 replicas, thorough up to 8, blocks 0,1,3, local bits in neighbouring blocks); complete SyncHolder passes over 2..5 in-process replicas of index i (set field s, time field t with views standard and standard_2019, shards 0,1): exhaustive 2 positions x 2..3 replicas (4 for the time view and in thorough), hand-picked cross-view / neighbouring-block cases, %d random multi-fragment cases (rows {0,1,99,100,150,305}). "+
-		"C23: all apiMethod constants x {STARTING,NORMAL,DEGRADED,RESIZING} EXHAUSTIVE; 27 calls of exported API entry points x states on a holder-less API and on a live single-node API.",
+		"C23: all apiMethod constants x {STARTING,NORMAL,DEGRADED,RESIZING} EXHAUSTIVE; 35 calls of exported API entry points (imports with every option) x states on a holder-less API and on a live single-node API.",
 		tier, seed, len(rckIDPool), sz[0], sz[1], sz[2], sz[3], sz[4])
 	rr := &rckRun{t: t, res: res, rng: rand.New(rand.NewSource(seed)), thorough: thorough, dir: dir, seen: map[string]bool{}}
 
